@@ -31,7 +31,15 @@ func VerifC14Index() {
 		nodes = append(nodes, verifObj("@id", lid, smNS+"element", elements[elemOf[e]], smNS+"value", fmt.Sprintf("[(%d,1)-(%d,9)]", e+1, e+1)))
 		links = append(links, verifObj("@id", lid))
 	}
-	sm := verifObj("@id", "http://x/sm", "@type", smNS+"SourceMap")
+	// the source map and the source-information node may carry a second type: @type is then a list
+	metaTypeList := v.Choice("metaTypesAsList", 2) == 1
+	metaType := func(t string) any {
+		if metaTypeList {
+			return []any{"http://example.org/Extra", t}
+		}
+		return t
+	}
+	sm := verifObj("@id", "http://x/sm", "@type", metaType(smNS+"SourceMap"))
 	switch {
 	case nEntries == 1 && v.Choice("single", 2) == 0:
 		sm[smNS+"lexical"] = links[0]
@@ -63,7 +71,7 @@ func VerifC14Index() {
 			nodes = append(nodes, loc)
 			locLinks = append(locLinks, verifObj("@id", lid))
 		}
-		si := verifObj("@id", "http://x/si", "@type", docNS+"BaseUnitSourceInformation", docNS+"rootLocation", "file://root")
+		si := verifObj("@id", "http://x/si", "@type", metaType(docNS+"BaseUnitSourceInformation"), docNS+"rootLocation", "file://root")
 		if len(locLinks) == 1 {
 			si[docNS+"additionalLocations"] = locLinks[0]
 		} else if len(locLinks) > 1 {
